@@ -186,11 +186,19 @@ theorem fault_rejected_units_builtin_override (fd : FaultDoc) (d : Units.UDef) (
     (h : Cellml.Gen.cellmlUnits.contains d.name = true) : ∃ e, loadFull fd = .error e :=
   loadFull_isErr_of_units (Cellml.Props.C03.reject_builtin_override 0 fd.udefs d hd h)
 
-/-- non-zero offset (unsupported feature) -/
+/-- non-zero offset (unsupported feature). `hden`: the offset is not one of the numbers below `2^-1075` that python's
+    `float` reads as zero (every decimal with at most 323 digits after the point satisfies it); the test of the source
+    is `float(offset) != 0` (`Units.offsetRejected`, exact: `Cellml.Props.C03.offset_test_exact`) -/
 theorem fault_rejected_units_offset (fd : FaultDoc) (d : Units.UDef) (hd : d ∈ fd.udefs) (hb : d.base = false)
     (e : Units.UnitElem) (he : e ∈ d.elems) (o : String) (ho : e.offset = some o) (q : Rat)
-    (hq : Decimal.parse o = some q) (hne : q ≠ 0) : ∃ err, loadFull fd = .error err :=
-  loadFull_isErr_of_units (Cellml.Props.C03.reject_nonzero_offset 0 fd.udefs d hd hb e he o ho q hq hne)
+    (hq : Decimal.parse o = some q) (hne : q ≠ 0) (hden : q.den < 2 ^ 1075) : ∃ err, loadFull fd = .error err :=
+  loadFull_isErr_of_units (Cellml.Props.C03.reject_nonzero_offset_of_ne 0 fd.udefs d hd hb e he o ho q hq hne hden)
+
+/-- an offset that is not a number at all (`float` raises), `nan`, `inf` -/
+theorem fault_rejected_units_offset_text (fd : FaultDoc) (d : Units.UDef) (hd : d ∈ fd.udefs) (hb : d.base = false)
+    (e : Units.UnitElem) (he : e ∈ d.elems) (o : String) (ho : e.offset = some o)
+    (hbad : Units.offsetRejected o = true) : ∃ err, loadFull fd = .error err :=
+  loadFull_isErr_of_units (Cellml.Props.C03.reject_offset 0 fd.udefs d hd hb e he o ho hbad)
 
 /-- dangling reference: a `<unit>` refers to a name that is neither built in nor defined -/
 theorem fault_rejected_units_dangling (fd : FaultDoc) (d : Units.UDef) (hd : d ∈ fd.udefs) (hb : d.base = false)
@@ -348,6 +356,13 @@ example : ∃ e, loadFull { doc := relayDoc, udefs := [mVdef, ⟨"degC", false, 
     = .error e :=
   fault_rejected_units_offset _ ⟨"degC", false, [{ units := "kelvin", offset := some "273.15" }]⟩ (by simp) rfl
     { units := "kelvin", offset := some "273.15" } (by simp) "273.15" rfl (5463/20) (by decide +kernel) (by decide +kernel)
+    (by decide +kernel)
+/-- the seeded slip `int(float(offset)) != 0` would accept this one -/
+example : ∃ e, loadFull { doc := relayDoc, udefs := [mVdef, ⟨"degH", false, [{ units := "kelvin", offset := some "0.5" }]⟩] }
+    = .error e :=
+  fault_rejected_units_offset _ ⟨"degH", false, [{ units := "kelvin", offset := some "0.5" }]⟩ (by simp) rfl
+    { units := "kelvin", offset := some "0.5" } (by simp) "0.5" rfl (1/2) (by decide +kernel) (by decide +kernel)
+    (by decide +kernel)
 example : ∃ e, loadFull { doc := relayDoc, udefs := [⟨"x", false, [{ units := "nowhere" }]⟩, mVdef] } = .error e :=
   fault_rejected_units_dangling _ ⟨"x", false, [{ units := "nowhere" }]⟩ (by simp) rfl { units := "nowhere" } (by simp)
     (by decide +kernel) (by decide +kernel)
